@@ -275,7 +275,9 @@ let mon_pair prop case impl =
     let want = fp_text (file_of_spec fspec) in
     let s_ok = (s = "s=ok") and r_ok = (r = "r=ok") and f_ok = (file = "file=" ^ want) in
     let nrs = int_of_string (String.sub nrs 4 (String.length nrs - 4)) in
+    let unknown = (s = "s=~" || r = "r=~") in   (* the outcome could not be read off the log (see tools/vlib.py, tolerant) *)
     if r_ok && not f_ok then "fail:completed-upload-with-wrong-content"
+    else if unknown then (if total <= 1 && not f_ok then "fail:single-fault-and-the-file-did-not-arrive" else "pass")
     else if s_ok && not r_ok then "fail:sender-succeeded-but-receiver-did-not"
     else if total <= 1 then begin
       (* a single fault never fails a transfer - except the loss of the very last ACK, which only the sender notices *)
@@ -352,7 +354,10 @@ let run_srv toks =
     let emit s = out := s :: !out in
     let reply_text acts =
       match List.filter_map (function AReply (l, p) -> Some (l, p) | _ -> None) acts with
-      | (l, p) :: _ -> Some (hex_of_bytes (encode p) ^ "@" ^ (if l then "L" else "E"))
+      | (l, p) :: _ ->
+        (* of an ERROR only opcode and code are compared: the wording of the message is no property's subject *)
+        let shown = (match p with Error _ -> hex_of_bytes (List.filteri (fun k _ -> k < 4) (encode p)) ^ "~" | _ -> hex_of_bytes (encode p)) in
+        Some (shown ^ "@" ^ (if l then "L" else "E"))
       | [] -> None in
     List.iter (fun step ->
       if step = "-" || step.[0] = 'w' then ()
@@ -441,7 +446,7 @@ let run_srv toks =
                     let nb = int_of_n (nblocks_of o.wo_blk content) in
                     (* the worker ended when it could not create the file: in single-port mode the client's DATA is
                        routed to nobody and answered by the listener; a closed transfer socket stays silent *)
-                    if cfg.v_single then emit ("ul=error:" ^ hex_of_bytes (encode (Error (EIllegalOperation, msg_invalid_request))))
+                    if cfg.v_single then emit ("ul=error:" ^ hex_of_bytes (List.filteri (fun k _ -> k < 4) (encode (Error (EIllegalOperation, msg_invalid_request)))))
                     else emit (Printf.sprintf "ul=noack:%d" (min (int_of_n o.wo_ws) nb))
                   end);
                if not (List.exists (fun (c', _, _) -> c' = c) !abandoned) then st := worker_ended !st src
